@@ -527,6 +527,34 @@ static void do_ser(char* line) {
   if (a_live != 0) ob_printf(" LEAK=%ld", a_live);
 }
 
+/* ------------------------------------------------------------------ stream: rt (C03 round trip) */
+static void do_rt(char* line) {
+  a_reset(); a_live = 0;
+  cbor_item_t* it = item_of_sexp(line);
+  if (!it) { ob_printf("BADCASE"); return; }
+  unsigned char* b1; size_t n1;
+  size_t r1 = cbor_serialize_alloc(it, &b1, &n1);
+  ob_hex(b1, r1); ob_printf(" -> ");
+  /* the buffer is followed by garbage: loading must consume exactly the item */
+  unsigned char* buf = malloc(n1 + 2); memcpy(buf, b1, n1); buf[n1] = 0xFF; buf[n1 + 1] = 0x00;
+  struct cbor_load_result res; memset(&res, 0xAA, sizeof res);
+  cbor_item_t* back = cbor_load(buf, n1 + 2, &res);
+  free(buf);
+  if (!back) ob_printf("err %s %zu", err_s(res.error.code), res.error.position);
+  else {
+    ob_printf("ok %zu ", res.read);
+    dump_rc_ok = true; dump_item(back);
+    unsigned char* b2; size_t n2;
+    size_t r2 = cbor_serialize_alloc(back, &b2, &n2);
+    ob_printf(" same=%d", (r2 == r1 && n2 == n1 && memcmp(b1, b2, n1) == 0) ? 1 : 0);
+    if (b2) hx_free(b2);
+    cbor_decref(&back);
+  }
+  if (b1) hx_free(b1);
+  cbor_decref(&it);
+  if (a_live != 0) ob_printf(" LEAK=%ld", a_live);
+}
+
 /* ------------------------------------------------------------------ stream: utf8 / dfa */
 static void do_utf8(char* line) {
   size_t n;
@@ -673,7 +701,7 @@ int main(int argc, char** argv) {
            sizeof(struct cbor_pair), sizeof(struct cbor_indefinite_string_data), sizeof(struct _cbor_stack_record));
     return 0;
   }
-  if (!strcmp(stream, "load") && argc >= 4) {
+  if ((!strcmp(stream, "load") || !strcmp(stream, "rt")) && argc >= 4) {
     /* argv[2] = expected L (checked), argv[3] = allocator cap */
     if ((long)CBOR_MAX_STACK_SIZE != atol(argv[2])) { fprintf(stderr, "hx: library L=%d, asked %s\n", (int)CBOR_MAX_STACK_SIZE, argv[2]); return 2; }
     a_cap = (size_t)strtoull(argv[3], NULL, 0);
@@ -685,6 +713,7 @@ int main(int argc, char** argv) {
   else if (!strcmp(stream, "encdec")) f = do_encdec;
   else if (!strcmp(stream, "load")) f = do_load;
   else if (!strcmp(stream, "ser")) f = do_ser;
+  else if (!strcmp(stream, "rt")) f = do_rt;
   else if (!strcmp(stream, "utf8")) f = do_utf8;
   else if (!strcmp(stream, "dfa")) f = do_dfa;
   else if (!strcmp(stream, "mem")) f = do_mem;
